@@ -42,6 +42,29 @@ pub fn q64(x: f64) -> String {
     }
     format!("(dy {} {})", z(sign * m), z(e as i128))
 }
+/// exact rational literal `(num # den)%Q` of a finite f64 (no `dy`: usable where the term is not
+/// evaluated by vm_compute first)
+pub fn qlit64(x: f64) -> String {
+    assert!(x.is_finite());
+    if x == 0.0 {
+        return "(0 # 1)%Q".to_string();
+    }
+    let bits = x.to_bits();
+    let neg = bits >> 63 == 1;
+    let exp = ((bits >> 52) & 0x7ff) as i64;
+    let frac = bits & 0xf_ffff_ffff_ffff;
+    let (mut m, mut e) = if exp == 0 { (frac as u128, -1074i64) } else { ((frac | (1u64 << 52)) as u128, exp - 1075) };
+    while m % 2 == 0 {
+        m /= 2;
+        e += 1;
+    }
+    let (num, den): (u128, u128) = if e >= 0 { (m << e, 1) } else { (m, 1u128 << (-e)) };
+    if neg {
+        format!("((-{}) # {})%Q", num, den)
+    } else {
+        format!("({} # {})%Q", num, den)
+    }
+}
 pub fn q(x: f32) -> String {
     q64(x as f64)
 }
